@@ -82,19 +82,114 @@ def transitions(ctx, ckey):
     return table
 
 
+def loop_transitions(ctx, fn):
+    """The same transducer when a view is written as `for entry in &self.entries { match entry { .. } }` pushing onto a result vector:
+    (kind, ignore_in) -> dict(emit, ign_out, prefix, path) from the loop's back-edge paths, plus a dict describing the skeleton
+    (what is iterated, initial flag / prefix, what is returned), or (None, None) when the function is not of that form."""
+    fx = ctx.fx
+    body = ctx.body(fn)
+    paths = ctx.paths(fn)
+    if body is None or not paths or len(body.loops) != 1:
+        return None, None
+    h = next(iter(body.loops))
+    backs = [p for p in paths if p.end[0] == "back" and p.end[1] == h]
+    rets = ret_paths(paths)
+    drv = [c for p in backs for c in p.conds() if c.term[0] == "discr" and is_call(strip_refs(c.term[1]), "::next") and strip_refs(c.term[1])[4] == h]
+    if not backs or not drv or not rets:
+        return None, None
+    nx = strip_refs(drv[0].term[1])
+    elem = ("field", ("downcast", nx, "Some"), 0, "0")
+    res = [strip_refs(p.end[1]) for p in rets]
+    if not all(isinstance(r, tuple) and r and r[0] in ("havoc", "mutated") for r in res) or len({r[1] for r in res}) != 1:
+        return None, None
+    rloc = res[0][1]
+    flags = {l for l, ty in enumerate(x["ty"] for x in body.f["locals"]) if ty == "bool" and any(isinstance(p.env.get(l), tuple) for p in backs)
+             and any(isinstance(c.term, tuple) and c.term[0] == "havoc" and c.term[1] == l for p in backs for c in p.conds())}
+    if len(flags) != 1:
+        return None, None
+    flag = next(iter(flags))
+    carried = {l for p in backs for l, v in p.env.items() if isinstance(v, tuple) and v and not (v[0] == "havoc" and v[1] == l)
+               and any(isinstance(q.env.get(l), tuple) and q.env.get(l)[0] == "havoc" and q.env.get(l)[1] == l and q.env.get(l)[2] == h for q in backs)}
+    # state carried from one entry to the next: written in some iteration AND read (as the value it had on entry to the iteration) in some iteration
+    def read_carried(l):
+        pr = lambda x: isinstance(x, tuple) and len(x) > 2 and x[0] == "havoc" and x[1] == l and x[2] == h
+        for p in backs:
+            for e in p.events:
+                ts = [e.term] if e.kind == "cond" else (list(e.args) if e.kind == "call" else [])
+                if any(mentions(t, pr) for t in ts if isinstance(t, tuple)):
+                    return True
+        return False
+    pfx_locals = {l for l in carried - {flag, rloc} if read_carried(l) and body.local_name(l) is not None}
+    kinds_all = enum_variants(fx, PE)
+    table = {}
+    for p in backs:
+        sel = None
+        for c in p.conds():
+            t = c.term
+            if t[0] == "discr":
+                x = strip_refs(t[1])
+                while isinstance(x, tuple) and x and x[0] == "deref":
+                    x = strip_refs(x[1])
+                if x == elem:
+                    if c.fact[0] == "eq":
+                        s_ = {variant_by_discr(fx, PE, c.fact[1])}
+                    else:
+                        s_ = set(kinds_all) - {variant_by_discr(fx, PE, v) for v in c.fact[1]}
+                    sel = s_ if sel is None else sel & s_
+        ks = sel if sel is not None else set(kinds_all)
+        ign = None
+        for c in p.conds():
+            if isinstance(c.term, tuple) and c.term[0] == "havoc" and c.term[1] == flag and isinstance(c.fact[1], bool):
+                ign = c.fact[1]
+        pushes = [e for e in p.events if ev_is(e, "Vec::push") and isinstance(e.args[0], tuple) and e.args[0][0] == "refmut" and isinstance(e.args[0][1], tuple) and e.args[0][1][:2] == ("loc", rloc)]
+        other = [e for e in p.events if e.kind == "call" and e.args and isinstance(e.args[0], tuple) and e.args[0][0] == "refmut" and isinstance(e.args[0][1], tuple)
+                 and e.args[0][1][:2] == ("loc", rloc) and not ev_is(e, "Vec::push")]
+        emit = None if (other or len(pushes) > 1) else bool(pushes)
+        fv = p.env.get(flag)
+        ign_out = "same" if (isinstance(fv, tuple) and fv[0] == "havoc" and fv[1] == flag) else const_of(fv)
+        pw = None
+        for l in pfx_locals:
+            v = p.env.get(l)
+            if isinstance(v, tuple) and not (v[0] == "havoc" and v[1] == l):
+                pw = v
+        for k in ks:
+            for iv in ((False, True) if ign is None else (ign,)):
+                table.setdefault((k, iv), []).append(dict(emit=emit, ign_out=(iv if ign_out == "same" else ign_out), prefix=pw, path=p, elem=elem))
+    hv = [x for p in backs for c in p.conds() for x in subterms(c.term) if x[0] == "havoc" and len(x) > 3]
+    finit = {const_of(x[3]) for x in hv if x[1] == flag}
+    src = _iter_src(call_args(nx)[0])
+    skel = dict(flag_init=finit, over_entries=isinstance(src, tuple) and src[0] == "field" and src[3] == "entries" and strip_refs(src[1]) in (("param", 1), ("deref", ("param", 1))),
+                result_init=[x[3] for p in rets for x in [strip_refs(p.end[1])] if len(x) > 3], prefix_locals=pfx_locals, elem=elem, loop=h,
+                exits_only_when_exhausted=all(any(c.term == drv[0].term and c.fact == ("eq", 0) for c in p.conds()) for p in rets))
+    return table, skel
+
+
+def _iter_src(t):
+    from lib import _iter_source
+    return _iter_source(t)
+
+
 def run(ctx):
     fx = ctx.fx
     sp = spec("plist.json")
     kinds = sp["entry_kinds"]
     ctx.check(enum_variants(fx, PE) == kinds, "D1-KINDS", PE, "variants", "17 entry kinds", "PlistEntry variants %s differ from the spec %s" % (enum_variants(fx, PE), kinds))
     file_rows = {}
+    loop_views = {}
     for view, vs in sp["views"].items():
         fn = "plist::Plist::%s" % view
         ck = fn + "::{closure#0}"
-        body = ctx.body(ck)
+        body = ctx.body(ck) if fx.fn(ck) is not None else None
+        skel = None
         if body is None:
-            continue
-        table = transitions(ctx, ck)
+            # no closure: the view may be written as a for-loop over the entries pushing onto the result
+            table, skel = loop_transitions(ctx, fn)
+            if table is None:
+                continue
+            ck = fn
+            body = ctx.body(fn)
+        else:
+            table = transitions(ctx, ck)
         n = 0
         for k in kinds:
             for iv in (False, True):
@@ -116,8 +211,8 @@ def run(ctx):
                 want_pfx = vs["prefix"] and k == "Cwd"
                 okp = (r["prefix"] is not None) == want_pfx
                 if want_pfx and okp:
-                    # prefix := Some(this entry's directory)
-                    some = unwrap_some(r["prefix"])
+                    # prefix := Some(this entry's directory)   (loop form: the directory itself, no Option around it)
+                    some = unwrap_some(r["prefix"]) if skel is None else r["prefix"]
                     okp = some is not None and mentions(some, lambda s: s[0] == "field" and s[1] == ("downcast", ("deref", ("param", 2)), "Cwd") or
                                                         (s[0] == "downcast" and s[2] == "Cwd"))
                 ctx.check(ok and okp, "D1-TRANSDUCER", ck, inst,
@@ -128,6 +223,13 @@ def run(ctx):
                 if k in ("File", "Ignore"):
                     file_rows.setdefault((k, iv), {})[view] = (r["emit"], r["ign_out"])
         ctx.floor("D1-TRANSDUCER", ck, "transitions", n, 34)
+        if skel is not None:
+            oks_ = skel["flag_init"] == {False} and skel["over_entries"] and skel["exits_only_when_exhausted"] and bool(skel["result_init"]) \
+                and all(is_call(strip_refs(x), "Vec::new", "Vec::<T>::new", "Vec::with_capacity") for x in skel["result_init"]) and (bool(skel["prefix_locals"]) == bool(vs["prefix"]))
+            ctx.check(oks_, "D1-APPLY", fn, "pipeline-0", "for entry in &self.entries { .. push .. } with the flag starting as false, returning the pushed vector",
+                      "%s is not a loop over all of self.entries (flag starting false, result starting empty, left only at the end)" % view, fn_span(body))
+            loop_views[view] = skel
+            continue
         # outer function: flag starts false, closure applied over all entries in order and collected
         ops = ctx.paths(fn)
         obody = ctx.body(fn)
@@ -160,10 +262,53 @@ def run(ctx):
 
     # ---- D2 prefix rule
     ck = "plist::Plist::files_prefixed::{closure#0}"
-    ps = ret_paths(ctx.paths(ck) or [])
-    body = ctx.body(ck)
+    if fx.fn(ck) is None and "files_prefixed" in loop_views:
+        # loop form: the directory is carried as a plain (possibly empty) string; the path is  dir  +  "/" unless dir ends in "/"  +  file
+        fn = "plist::Plist::files_prefixed"
+        skel = loop_views["files_prefixed"]
+        body = ctx.body(fn)
+        h = skel["loop"]
+        backs = [p for p in ctx.paths(fn) if p.end[0] == "back" and p.end[1] == h]
+        pl = next(iter(skel["prefix_locals"])) if len(skel["prefix_locals"]) == 1 else None
+        is_pfx = lambda t: mentions(t, lambda s_: s_[0] == "havoc" and s_[1] == pl and len(s_) > 2 and s_[2] == h)
+        hv = [x for p in backs for e in p.events if e.kind == "call" for a in e.args for x in subterms(a) if x[0] == "havoc" and x[1] == pl and len(x) > 3]
+        empty0 = bool(hv) and all(is_call(strip_refs(x[3]), "OsStr::new", "::new", "::from", "::default") and
+                                  (not call_args(strip_refs(x[3])) or const_str(call_args(strip_refs(x[3]))[0]) == "") for x in hv)
+        ctx.check(pl is not None and empty0, "D2-PREFIX", fn, "no-directory-yet", "before any @cwd the carried directory is the empty string",
+                  "the directory carried by files_prefixed does not start out empty", fn_span(body), nontrivial=False)
+        emitting = [p for p in backs if any(ev_is(e, "Vec::push") for e in p.events)]
+        ctx.floor("D2-PREFIX", fn, "emitting paths", len(emitting), 2)
+        for i, p in enumerate(emitting):
+            vp = [e for e in p.events if ev_is(e, "Vec::push")][0]
+            pv = strip_refs(vp.args[1])
+            ploc = pv[1] if isinstance(pv, tuple) and pv[0] in ("mutated", "havoc") else None
+            pushes = [e for e in p.events if ev_is(e, "OsString::push") and isinstance(e.args[0], tuple) and e.args[0][0] == "refmut" and isinstance(e.args[0][1], tuple) and e.args[0][1][:2] == ("loc", ploc)]
+            init = pushes[0].args[0][1][2] if pushes and len(pushes[0].args[0][1]) > 2 else None
+            slash = None
+            for c in p.conds():
+                if is_call(c.term, "str>::ends_with", "[T]>::ends_with") and (const_char(call_args(c.term)[1]) == "/" or const_bytes(call_args(c.term)[1]) == "/" or const_str(call_args(c.term)[1]) == "/") \
+                        and is_pfx(call_args(c.term)[0]) and isinstance(c.fact[1], bool):
+                    slash = c.fact[1]
+            seq = ["prefix"] if init is not None and is_call(strip_refs(init), "::to_os_string", "::to_owned", "OsString::from", "::into") and is_pfx(init) else []
+            for e in pushes:
+                a = e.args[1]
+                if const_str(a) is not None:
+                    seq.append("lit:" + const_str(a))
+                elif mentions(a, lambda s_: s_[0] == "downcast" and s_[2] == "File"):
+                    seq.append("file")
+                elif is_pfx(a):
+                    seq.append("prefix")
+                else:
+                    seq.append("?")
+            want = ["prefix"] + ([] if slash else ["lit:/"]) + ["file"]
+            ctx.check(slash is not None and seq == want, "D2-PREFIX", fn, "path-endslash=%s" % slash, "builds %s" % seq,
+                      "with ends-with-'/'=%s the path is built from %s; expected %s" % (slash, seq, want), fn_span(body))
+        ck = None
+    ps = ret_paths(ctx.paths(ck) or []) if ck else []
+    body = ctx.body(ck) if ck else None
     emitting = [p for p in ps if unwrap_some(p.end[1]) is not None]
-    ctx.floor("D2-PREFIX", ck, "emitting paths", len(emitting), 2)
+    if ck:
+        ctx.floor("D2-PREFIX", ck, "emitting paths", len(emitting), 2)
     for i, p in enumerate(emitting):
         pushes = [e for e in p.events if ev_is(e, "OsString::push")]
         has_pfx = None
